@@ -543,12 +543,17 @@ fn structured(ctx: &Ctx, idx: usize, id: String, hostile: bool) -> Case {
     let mut used_order: Vec<u16> = vec![];
     let nops = g.rng.range(10, ctx.tier.pick(40, 90) as u64);
     let mut dead = false;
+    let greedy = idx % 3 == 0;
     for _ in 0..nops {
         if dead {
             break;
         }
         let pending: Vec<usize> = (0..nbs.len()).filter(|i| nbs[*i].done.is_none()).collect();
-        let r = g.rng.below(100);
+        let mut r = g.rng.below(100);
+        // greedy cases keep submitting until the queue is full (16 outstanding with indirect descriptors)
+        if greedy && nbs.len() <= limit && r >= 28 && r < 80 && g.rng.chance(1, 2) {
+            r = 0;
+        }
         if r < 28 {
             // ---- submit a non-blocking request (also beyond capacity: QueueFull) ----
             if nbs.len() > limit {
@@ -668,7 +673,7 @@ fn structured(ctx: &Ctx, idx: usize, id: String, hostile: bool) -> Case {
             }
         } else if r < 80 {
             // ---- complete: usually the request at the head of the used ring, sometimes another ----
-            if nbs.is_empty() {
+            if nbs.is_empty() || (used_order.is_empty() && !g.rng.chance(1, 5)) {
                 continue;
             }
             let wrong = g.rng.chance(1, 5);
